@@ -249,6 +249,165 @@ pub fn label_oracle_into(ctx: &mut Ctx) {
     ctx.extra.insert("single_fault_worlds_with_label_check".into(), json!(n));
 }
 
+// ---------------------------------------------------------------------------
+// C05(d): ranges of published LSP diagnostics for planted faults
+
+pub const LSP_SPELLINGS: [&str; 5] = ["one-line-per-declaration", "one-lexeme-per-line", "one-lexeme-per-line-crlf", "non-ascii-comment-before-every-lexeme", "two-documents"];
+
+fn lsp_docs(w: &World, spelling: usize) -> Vec<(String, String, String)> {
+    use crate::lex::{spell_with, Glue};
+    let sp = |d: &crate::world::Decl| -> String {
+        let lx = d.lx();
+        match spelling {
+            1 => spell_with(&lx.v, "", "\n", &|_, g| if g == Glue::Hard { String::new() } else { "\n".to_string() }).text,
+            2 => spell_with(&lx.v, "", "\r\n", &|_, g| if g == Glue::Hard { String::new() } else { "\r\n".to_string() }).text,
+            3 => spell_with(&lx.v, "  ", "\n", &|_, g| if g == Glue::Hard { String::new() } else { " (* \u{e9}\u{1F600} *) ".to_string() }).text,
+            _ => d.text(),
+        }
+    };
+    if spelling == 4 {
+        let (mut a, mut b) = (String::new(), String::new());
+        for d in &w.decls {
+            if matches!(d.name.as_str(), "Host" | "Main" | "cfg") {
+                b.push_str(&d.text());
+            } else {
+                a.push_str(&d.text());
+            }
+        }
+        vec![("file:///w/a.st".into(), "/w/a.st".into(), a), ("file:///w/b.st".into(), "/w/b.st".into(), b)]
+    } else {
+        vec![("file:///w/a.st".into(), "/w/a.st".into(), w.decls.iter().map(sp).collect::<String>())]
+    }
+}
+
+/// (line, UTF-16 column) of a byte offset; lines end at LF.
+fn lsp_position(text: &str, off: usize) -> (u64, u64) {
+    let (mut line, mut col) = (0u64, 0u64);
+    for (i, ch) in text.char_indices() {
+        if i >= off {
+            break;
+        }
+        if ch == '\n' {
+            line += 1;
+            col = 0;
+        } else {
+            col += ch.len_utf16() as u64;
+        }
+    }
+    (line, col)
+}
+
+fn lsp_range_problems(w: &World, spelling: usize) -> Vec<(String, String)> {
+    use crate::lspx::{did_change, did_open, MemSrv, Server, Status};
+    use ironplcc::project::{FileBackedProject, Project};
+    let docs = lsp_docs(w, spelling);
+    let order: Vec<usize> = (0..docs.len()).collect();
+    // expected: the labels of Project::semantic() on the same documents, converted independently
+    let mut p = FileBackedProject::new();
+    for (_, path, text) in &docs {
+        p.change_text_document(&front::fid(path), text.clone());
+    }
+    ironplcc::verif::set_order(Some(order.clone()));
+    let r = crate::util::catch(|| p.semantic());
+    ironplcc::verif::set_order(None);
+    let diags = match r {
+        Ok(Err(ds)) => ds,
+        Ok(Ok(())) => vec![],
+        Err(pn) => return vec![("semantic-panicked".into(), format!("Project::semantic panicked at {}", pn.loc))],
+    };
+    let mut out = vec![];
+    let mut srv = MemSrv::new(Some(order));
+    let mut last: Vec<Option<Value>> = vec![None; docs.len()];
+    let mut steps: Vec<(usize, Value)> = docs.iter().enumerate().map(|(i, d)| (i, did_open(&d.0, 1, &d.2))).collect();
+    if docs.len() > 1 {
+        steps.push((0, did_change(&docs[0].0, 2, &[docs[0].2.as_str()])));
+    }
+    for (i, m) in steps {
+        let obs = srv.step(&m);
+        if obs.status != Status::Alive {
+            out.push(("server-died".to_string(), format!("the server is {:?} after the notification for {}", obs.status, docs[i].1)));
+            return out;
+        }
+        match obs.msgs.iter().filter(|v| v["method"] == "textDocument/publishDiagnostics" && v["params"]["uri"].as_str() == Some(docs[i].0.as_str())).last() {
+            Some(v) => last[i] = Some(v.clone()),
+            None => out.push(("nothing-published".to_string(), format!("no publishDiagnostics for {}", docs[i].1))),
+        }
+    }
+    let _ = Box::new(srv).finish();
+    for (i, (_, path, text)) in docs.iter().enumerate() {
+        let Some(pubd) = &last[i] else { continue };
+        let mut published: Vec<(String, u64, u64, u64, u64)> = pubd["params"]["diagnostics"]
+            .as_array()
+            .map(|a| {
+                a.iter()
+                    .map(|d| {
+                        (
+                            d["code"].as_str().unwrap_or("?").to_string(),
+                            d["range"]["start"]["line"].as_u64().unwrap_or(u64::MAX),
+                            d["range"]["start"]["character"].as_u64().unwrap_or(u64::MAX),
+                            d["range"]["end"]["line"].as_u64().unwrap_or(u64::MAX),
+                            d["range"]["end"]["character"].as_u64().unwrap_or(u64::MAX),
+                        )
+                    })
+                    .collect()
+            })
+            .unwrap_or_default();
+        let involved = diags.iter().filter(|d| d.file_ids().iter().any(|f| f.to_string() == *path)).count();
+        if published.len() != involved {
+            out.push(("number-of-published-diagnostics".to_string(), format!("{} diagnostics involve {} but {} are published", involved, path, published.len())));
+        }
+        for d in diags.iter().filter(|d| d.primary.file_id.to_string() == *path) {
+            let (s, e) = (d.primary.location.start.min(text.len()), d.primary.location.end.min(text.len()));
+            let (sl, sc) = lsp_position(text, s);
+            let (el, ec) = lsp_position(text, e.max(s));
+            let want = (d.code.clone(), sl, sc, el, ec);
+            match published.iter().position(|x| *x == want) {
+                Some(k) => {
+                    published.remove(k);
+                }
+                None => out.push((
+                    format!("{}/range", d.code),
+                    format!("the label {}..{} ({:?}) of {} is line {} column {} to line {} column {}; published for {}: {:?}", s, e, crate::util::short(&text[s..e.max(s)], 20), d.code, sl, sc, el, ec, path, published),
+                )),
+            }
+        }
+    }
+    out
+}
+
+/// Called by C05: the published range of every diagnostic must be the label's position in the document.
+pub fn lsp_range_oracle_into(ctx: &mut Ctx) {
+    let ws: Vec<World> = worlds(1).into_iter().filter(|w| w.violated.len() == 1).collect();
+    let jobs: Vec<(usize, usize)> = (0..ws.len()).flat_map(|i| (0..LSP_SPELLINGS.len()).map(move |s| (i, s))).collect();
+    let res: Vec<Vec<(String, String)>> = jobs.par_iter().map(|(i, s)| lsp_range_problems(&ws[*i], *s)).collect();
+    let mut n = 0u64;
+    for ((i, sp), probs) in jobs.iter().zip(res.iter()) {
+        n += 1;
+        let w = &ws[*i];
+        ctx.distinct(&format!("lsp-range|{}|{}", w.labels.join(","), sp));
+        for (k, what) in probs {
+            ctx.fail(&format!("lsp-range/{}/{}", k, LSP_SPELLINGS[*sp]), &format!("[{}] {}", w.labels.join(","), what), json!({"mode":"lsp-range","labels": w.labels, "spelling": sp}));
+        }
+    }
+    ctx.evaluations += n;
+    ctx.transitions += 3 * n;
+    ctx.outcome_n("published-range checks", n);
+    ctx.extra.insert("published_range_checks".into(), json!(n));
+}
+
+pub fn replay_lsp_range(case: &Value) -> Result<String, String> {
+    let labels: Vec<String> = case["labels"].as_array().ok_or("labels")?.iter().map(|x| x.as_str().unwrap_or("").to_string()).collect();
+    let sp = case["spelling"].as_u64().ok_or("spelling")? as usize;
+    let ws = worlds(1);
+    let w = ws.iter().find(|w| w.labels == labels).ok_or("world is not in the enumerated space any more")?;
+    let p = lsp_range_problems(w, sp);
+    if p.is_empty() {
+        Ok("every published range is the position of its label".into())
+    } else {
+        Err(format!("{:?}", p))
+    }
+}
+
 pub fn replay_label(case: &Value) -> Result<String, String> {
     let labels: Vec<String> = case["labels"].as_array().ok_or("labels")?.iter().map(|x| x.as_str().unwrap_or("").to_string()).collect();
     let ws = worlds(1);
